@@ -525,3 +525,87 @@ def r9(R):
     R.count(stats)
     for v in vs:
         R.violation(v.node, v.message, g, v.path)
+
+
+# ------------------------------------------------------------------ C06.R10
+@rule('C06.R10', 'an undo that fails leaves nothing in the transaction '
+      'buffer: every raising exit of FileStorage.undo that follows a write '
+      'of an undo record rewinds the buffer to where the undo found it',
+      props=['C05'], min_instances=1)
+def r10(R):
+    cls = R.prog.cls(FS)
+    f = R.method(cls, 'undo')
+    g, b, F = R.cfg(f, cls, max_depth=2,
+                    inline=lambda t, fr: t.func.name == '_txn_undo_write')
+    writes = [0]
+
+    from ..flow import Flags
+    consts = {t.id for s_ in ast.walk(f.node) if isinstance(s_, ast.Assign)
+              and isinstance(s_.value, ast.Constant) and isinstance(
+                  s_.value.value, bool)
+              for t in s_.targets if isinstance(t, ast.Name)}
+    flags = Flags(F, lambda e, fr: e.id if isinstance(e, ast.Name) and
+                  e.id in consts and fr.parent is None else None)
+
+    def edge(node, st0, lab, tgt):
+        st, fl = st0
+        fl = flags.learn(node, fl, lab)
+        if fl is PRUNE:
+            return PRUNE
+        if lab not in ('e', 'eb'):
+            fl = flags.assign(node, fl, lab)
+        st = edge1(node, st, lab, tgt)
+        if st is PRUNE:
+            return PRUNE
+        return (st, fl)
+
+    def edge1(node, st, lab, tgt):
+        # st: None (nothing written) | 'dirty' | 'failed' | 'rewound'
+        for op in F.ops(node):
+            if op.kind == 'call' and path_is(op.path,
+                                             ('self', '_tfile', 'write')):
+                # (the write may have happened even if the node raises)
+                st = 'dirty'
+            elif op.kind == 'call' and path_is(
+                    op.path, ('self', '_tfile', 'seek')) and st == 'failed':
+                a = op.ast.args
+                if len(a) == 1:
+                    pv = provenance(a[0], node.frame, F)
+                    if prov_has(pv, 'call', lambda p: tuple(p[-2:]) == (
+                            '_tfile', 'tell')):
+                        if lab in ('e', 'eb'):
+                            return PRUNE   # the rewind itself failing
+                        st = 'rewound'
+        # the undo computation fails: an exception leaves a statement of
+        # _txn_undo_write (only those failures are judged)
+        if st == 'dirty' and node.frame.parent is not None and \
+                tgt.frame is not None and tgt.frame.parent is None and (
+                lab in ('e', 'eb') or node.kind in ('raise', 'reraise')):
+            st = 'failed'
+        return st
+
+    def at(node, st):
+        if node.id == g.exit_raise and st[0] == 'failed':
+            return Violation(
+                'FileStorage.undo fails with undo records already written '
+                'to the transaction buffer and does not rewind it: if the '
+                'caller goes on with the transaction, the records of the '
+                'refused undo are committed to the file although they are '
+                'not in the index (the running storage and a scan of the '
+                'file disagree)')
+        return st
+
+    for nid in g.reachable():
+        for op in F.ops(g.nodes[nid]):
+            if op.kind == 'call' and path_is(op.path,
+                                             ('self', '_tfile', 'write')):
+                writes[0] += 1
+    R.instance('FileStorage.undo', buffer_writes=writes[0])
+    R.require(writes[0] >= 1, 'undo no longer writes to the transaction '
+              'buffer')
+    vs, stats = explore(g, (None, frozenset()), at=at, edge=edge)
+    R.count(stats)
+    for v in vs[:1]:
+        last = g.nodes[v.path[-2]] if len(v.path) > 1 else v.node
+        R.violation(last, v.message, g, v.path,
+                    key='failed undo leaves records in the buffer')
